@@ -422,7 +422,7 @@ theorem sde_dep (enc : Enc) : ∀ (f : Nat), SdeDep enc f := by
   | succ f ih =>
     intro ty tok op x v q h
     cases ty with
-    | bool | i64 | u64 | i32 | u32 | f64 | f32 =>
+    | bool | i64 | u64 | i32 | u32 | i16 | u16 | i8 | u8 | f64 | f32 =>
       simp only [sde] at h
       obtain ⟨rfl, a, ha, rfl⟩ := map_pair_ok (g := id) h
       exact ⟨[], by simp, by simp, fun y => by simp [sde, ha, Except.map]⟩
@@ -658,7 +658,7 @@ theorem deStream_replace_err (enc : Enc) (ty : Ty) (p s : List RTok) (v : Val)
       have hdep : ∀ B, DepVal V V B := by intro B; rw [← hV]; exact depVal_propRoot enc _ t B
       obtain ⟨q2, h2⟩ := rootFold_replace _ V hdep p s (none, none) st' r hM
       simp only [h2]; exact h
-  | bool | i64 | u64 | i32 | u32 | f64 | f32 | str | any | ign => simp [deStream] at h
+  | bool | i64 | u64 | i32 | u32 | i16 | u16 | i8 | u8 | f64 | f32 | str | any | ign => simp [deStream] at h
   | opt t => simp [deStream] at h
   | seq t => simp [deStream] at h
   | en vs => simp [deStream] at h
@@ -925,7 +925,7 @@ theorem C19_text_de (enc : Enc) (ty : Ty) (ts : List RTok) (n : Nat) (v v' : Val
       simp only at hnone
       subst hnone
       simp [propFinish] at h
-  | bool | i64 | u64 | i32 | u32 | f64 | f32 | str | any | ign => simp [deStream] at h
+  | bool | i64 | u64 | i32 | u32 | i16 | u16 | i8 | u8 | f64 | f32 | str | any | ign => simp [deStream] at h
   | opt t => simp [deStream] at h
   | seq t => simp [deStream] at h
   | en vs => simp [deStream] at h
